@@ -56,6 +56,22 @@ def variants(m, rnd, nrand, nren=1):
         v.remap({k: k - 1000 for k in v._atoms})
         yield 'renumber', v, {n: mp[n] - 1000 for n in nums}
     yield 'copy', m.copy(), ident
+    # the same molecule after calls that end in a stereo re-perception (what they cache must not change its identity)
+    v = m.copy()
+    v.kekule()           # hydrogens of aromatic atoms cannot be recomputed by the transaction exit
+    with v:
+        pass
+    v.thiele()
+    yield 'empty-transaction', v, ident
+    v = m.copy()
+    try:
+        v.canonicalize(fix_tautomers=False)
+        if len(v) == len(m):
+            yield 'canonicalized-copy', v, ident
+    except Exception:
+        pass
+    if m.connected_components_count == 1:
+        yield 'substructure-of-everything', m.substructure(list(m._atoms), recalculate_hydrogens=False), ident
     # respell: the library's writers, atom maps carry the bijection
     for k in range(nrand):
         random.seed(rnd.randrange(1 << 30))
@@ -205,7 +221,8 @@ def run(ck):
              'c1ccc2c(c1)Cc1ccccc1-2', 'c1cc2ccc3cccc4ccc(c1)c2c34', 'C1C2CC3CC1CC(C2)C3', 'C12C3C4C1C5C2C3C45', 'c1ccc(cc1)-c1ccc(cc1)-c1ccccc1', 'C1CC2CCC1C2', 'C1CCC2(CC1)OCCO2',
              'C/C(F)=C/O/C=C(\\C)F', 'C/C(F)=C/Cl.C/C(F)=C\\Cl', 'C/C(F)=C/Cl.C/C(F)=C/Cl', 'CC(C)=CCC/C(C)=C/CC/C(C)=C/CC/C=C(\\C)CC/C=C(\\C)CCC=C(C)C',
              'C/C(N)=C/CC/C=C(/C)N', 'F/C(Cl)=C/C/C=C(/F)Cl', 'F/C(Cl)=C/C/C=C(\\F)Cl', 'O/N=C(/C)CC/C(C)=N/O', 'O/N=C(/C)CC/C(C)=N\\O', 'C1=CC=C1', 'C1=CC=CC=CC=C1', 'C1=CC=CC=CC=CC=CC=C1', 'C1=CC2=CC=C1C=C2', 'N1=CC=NC=C1', 'C1=CC=NC=CC=N1', 'C1CC2CCC1C2', 'C1CC2CCC1CC2', 'FC(Cl)=[C@]=C(Br)I', 'FC(Cl)=[C@@]=C(Br)I', 'FC=[C@]=CCl', 'CC=[C@@]=CF', 'CC(F)=[C@]=C(C)CC', 'C/C=C=C=C/C', 'C/C=C=C=C\\C', 'F/C(Cl)=C=C=C(/Br)I',
-             'CC=[C@]=C=C=CC', 'C[C@H](O)C=[C@@]=CC', 'C(C[C@H](F)Cl)(C[C@H](F)Cl)C[C@@H](F)Cl', 'N(C[C@H](F)Cl)(C[C@H](F)Cl)C[C@@H](F)Cl', 'C(C/C=C/F)(C/C=C/F)C/C=C\\F',
+             'CC=[C@]=C=C=CC', 'C[C@H](O)C=[C@@]=CC', '[12CH3]C', '[12CH3]CC', 'O[12CH2]CO', '[16OH]CCO', '[14NH2]CCN', '[12cH]1ccccc1', '[1H]C([1H])C', 'C[12CH2]C.[13CH4]', 'O[C@H](c1ccccc1)[C@@H](O)c1ccccc1', 'C[C@H](c1ccccc1)[C@@H](C)c1ccccc1',
+             'O[C@H](c1ccccc1)[C@H](O)c1ccccc1', 'OC(=O)[C@H](O)[C@@H](O)C(=O)O', 'C[C@H](O)c1ccc(cc1)[C@@H](C)O', 'C(C[C@H](F)Cl)(C[C@H](F)Cl)C[C@@H](F)Cl', 'N(C[C@H](F)Cl)(C[C@H](F)Cl)C[C@@H](F)Cl', 'C(C/C=C/F)(C/C=C/F)C/C=C\\F',
              'C(CC(F)=[C@]=CCl)(CC(F)=[C@]=CCl)CC(F)=[C@@]=CCl', 'C[C@H](F)C([C@H](C)F)([C@@H](C)F)[C@@H](C)F', 'F[C@H](Cl)C[C@@H](F)Cl', 'C(C[C@H](F)Cl)(C[C@H](F)Cl)C[C@H](F)Cl', 'CC=[C@]=CC/C=C/C', 'C1CCCC=[C@]=CCCC1', 'C[Fe]C', '[Fe+2].[O-]C=O.[O-]C=O', 'CC(C)C[C@H](N)C(=O)N[C@@H](C)C(O)=O']
     cases = [{'key': s, 'smi': s, 'rs': rnd.randrange(1 << 30), 'nrand': 3 if ck.quick else 6} for s in sel] + \
             [{'key': s, 'smi': s, 'rs': rnd.randrange(1 << 30), 'nrand': 6 if ck.quick else 20, 'nren': 10 if ck.quick else 40} for s in extra]
